@@ -7,7 +7,10 @@
      spine/nodemanagement*.go   NodeManagement.HandleMessage and the handlers it dispatches to
      spine/send.go              Sender.Reply / Sender.result (addressing of responses)
      spine/subscription_manager.go, binding_manager.go   (grant / delete rules, the write gate)
-     spine/device_remote.go     FeatureByAddress, AddEntityAndFeatures, UpdateDevice
+     spine/device_remote.go     FeatureByAddress, AddEntityAndFeatures, CheckEntityInformation, UpdateDevice
+     spine/nodemanagement_detaileddiscovery.go   reply / partial notify processing (as repaired on main:
+                                entries handled one by one, a reply removes the entities it does not list,
+                                the device information entity cannot be removed, node management always exists)
 
    Executable definitions only (no proofs).  Identifiers are numbers kept in bijection by the
    harness (harness/dispatch).  The model describes the REPAIRED code:
@@ -418,90 +421,99 @@ Definition remove_for_entity (s : st) (pe : peer) (en : rent) : st :=
 Definition mk_rfeat (en : rent) (d : disc_feat) : rfeat :=
   {| rf_dev := re_dev en; rf_id := df_id d; rf_type := df_type d; rf_role := df_role d |}.
 
-(* DeviceRemote.AddEntityAndFeatures *)
-Fixpoint add_entities (pe : peer) (m : disc_msg) (l : list disc_ent) : peer :=
-  match l with
-  | [] => pe
-  | de :: r =>
-      let '(en, created) :=
-        match find_rent pe (de_addr de) with
-        | Some en => (en, false)
-        | None => ({| re_dev := p_addr pe; re_addr := de_addr de; re_feats := [] |}, true)
-        end in
-      let dev := match re_dev en with
-                 | Some d => Some d
-                 | None => dm_dev m
-                 end in
-      let en1 := {| re_dev := dev; re_addr := re_addr en; re_feats := [] |} in
-      let en2 := {| re_dev := dev; re_addr := re_addr en;
-                    re_feats := map (mk_rfeat en1) (filter (fun d => eqb_eaddr (df_ent d) (de_addr de)) (dm_feats m)) |} in
-      let ents := if created then p_ents pe ++ [en2]
-                  else map (fun x => if eqb_eaddr (re_addr x) (de_addr de) then en2 else x) (p_ents pe) in
-      add_entities {| p_ski := p_ski pe; p_addr := p_addr pe; p_ents := ents |} m r
+(* DeviceRemote.CheckEntityInformation(initialData, ei): the entity address is given; and unless this
+   is the initial discovery reply: the device information entity is not being removed, and a device
+   address, if given, is the sender's *)
+Definition check_entity (initial : bool) (pe : peer) (de : disc_ent) : bool :=
+  match de_addr de with
+  | [] => false
+  | _ =>
+      initial ||
+      (negb (match de_state de with Some SRemoved => eqb_eaddr (de_addr de) [0%N] | _ => false end) &&
+       match de_dev de, p_addr pe with
+       | Some d, Some a => N.eqb d a
+       | _, _ => true
+       end)
   end.
 
-(* CheckEntityInformation(false, ei): device address mismatch *)
-Definition check_entity (pe : peer) (de : disc_ent) : bool :=
-  match de_dev de, p_addr pe with
-  | Some d, Some a => N.eqb d a
-  | _, _ => true
+(* one round of the loop of DeviceRemote.AddEntityAndFeatures (after the check): find or create the
+   entity, complete its device address, replace its features by those the message lists for it;
+   node management always exists on the device information entity *)
+Definition add_entity (pe : peer) (m : disc_msg) (de : disc_ent) : peer :=
+  let '(en, created) :=
+    match find_rent pe (de_addr de) with
+    | Some en => (en, false)
+    | None => ({| re_dev := p_addr pe; re_addr := de_addr de; re_feats := [] |}, true)
+    end in
+  let dev := match re_dev en with
+             | Some d => Some d
+             | None => dm_dev m
+             end in
+  let en1 := {| re_dev := dev; re_addr := re_addr en; re_feats := [] |} in
+  let feats := map (mk_rfeat en1) (filter (fun d => eqb_eaddr (df_ent d) (de_addr de)) (dm_feats m)) in
+  let feats1 :=
+    if eqb_eaddr (de_addr de) [0%N] && negb (existsb (fun x => N.eqb (rf_id x) 0) feats)
+    then feats ++ [ {| rf_dev := dev; rf_id := 0; rf_type := T_NODEMGMT; rf_role := RSpecial |} ]
+    else feats in
+  let en2 := {| re_dev := dev; re_addr := re_addr en; re_feats := feats1 |} in
+  let ents := if created then p_ents pe ++ [en2]
+              else map (fun x => if eqb_eaddr (re_addr x) (de_addr de) then en2 else x) (p_ents pe) in
+  {| p_ski := p_ski pe; p_addr := p_addr pe; p_ents := ents |}.
+
+(* DeviceRemote.AddEntityAndFeatures: an entry that fails the check aborts, the entries before it
+   have been applied; true = error *)
+Fixpoint add_entities (initial : bool) (pe : peer) (m : disc_msg) (l : list disc_ent) : peer * bool :=
+  match l with
+  | [] => (pe, false)
+  | de :: r =>
+      if negb (check_entity initial pe de) then (pe, true)
+      else add_entities initial (add_entity pe m de) m r
   end.
 
-(* the "removed" branch of processNotifyDetailedDiscoveryData: walks ALL entries of the message *)
-Fixpoint remove_entities (s : st) (p : N) (l : list disc_ent) : st * bool :=
-  match l with
-  | [] => (s, false)
-  | de :: r =>
-      match find_peer s p with
-      | None => (s, true)
-      | Some pe =>
-          if negb (check_entity pe de) then (s, true) else
-          match find_rent pe (de_addr de) with
-          | None => remove_entities s p r
-          | Some en =>
-              let pe1 := {| p_ski := p_ski pe; p_addr := p_addr pe;
-                            p_ents := filter (fun x => negb (eqb_eaddr (re_addr x) (de_addr de))) (p_ents pe) |} in
-              remove_entities (remove_for_entity (set_peer s pe1) pe1 en) p r
-          end
+(* NodeManagement.removeRemoteEntity: the entity, if it exists, with its subscriptions and bindings *)
+Definition remove_remote_entity (s : st) (p : N) (e : eaddr) : st :=
+  match find_peer s p with
+  | None => s
+  | Some pe =>
+      match find_rent pe e with
+      | None => s
+      | Some en =>
+          let pe1 := {| p_ski := p_ski pe; p_addr := p_addr pe;
+                        p_ents := filter (fun x => negb (eqb_eaddr (re_addr x) e)) (p_ents pe) |} in
+          remove_for_entity (set_peer s pe1) pe1 en
       end
   end.
 
-Definition all_checked (pe : peer) (l : list disc_ent) : bool := forallb (check_entity pe) l.
-
-Fixpoint checked_prefix (pe : peer) (l : list disc_ent) : list disc_ent :=
-  match l with
-  | [] => []
-  | d :: t => if check_entity pe d then d :: checked_prefix pe t else []
-  end.
-
-(* processNotifyDetailedDiscoveryData (with the partial filter): outer loop over the entries *)
+(* processNotifyDetailedDiscoveryData (with the partial filter): every entry on its own, in order;
+   the first defective entry aborts with an error, the entries before it have been applied *)
 Fixpoint notify_entries (s : st) (p : N) (m : disc_msg) (l : list disc_ent) : st * bool :=
   match l with
   | [] => (s, false)
   | de :: r =>
-      match de_state de with
-      | None => (s, true)
-      | Some SAdded =>
-          match find_peer s p with
-          | None => (s, true)
-          | Some pe =>
-              (* AddEntityAndFeatures(false, data) checks each entry as it goes; an error aborts,
-                 the entries before the offending one have been applied *)
-              if negb (all_checked pe (dm_ents m))
-              then (set_peer s (add_entities pe m (checked_prefix pe (dm_ents m))), true)
-              else notify_entries (set_peer s (add_entities pe m (dm_ents m))) p m r
-          end
-      | Some SRemoved =>
-          let '(s1, err) := remove_entities s p (dm_ents m) in
-          if err then (s1, true) else notify_entries s1 p m r
+      match de_state de, find_peer s p with
+      | None, _ | _, None => (s, true)
+      | Some SAdded, Some pe =>
+          if negb (check_entity false pe de) then (s, true)
+          else notify_entries (set_peer s (add_entity pe m de)) p m r
+      | Some SRemoved, Some pe =>
+          if negb (check_entity false pe de) then (s, true)
+          else notify_entries (remove_remote_entity s p (de_addr de)) p m r
       end
   end.
 
-(* processReplyDetailedDiscoveryData: UpdateDevice + AddEntityAndFeatures(true, data) *)
-Definition discovery_reply (s : st) (pe : peer) (m : disc_msg) : st :=
+Definition listed (m : disc_msg) (e : eaddr) : bool := existsb (fun de => eqb_eaddr (de_addr de) e) (dm_ents m).
+
+(* processReplyDetailedDiscoveryData: UpdateDevice, AddEntityAndFeatures(true, data), then the entities
+   the reply does not list (other than the device information entity) are removed *)
+Definition discovery_reply (s : st) (pe : peer) (m : disc_msg) : st * bool :=
   let pe0 := {| p_ski := p_ski pe; p_addr := match dm_dev m with Some d => Some d | None => p_addr pe end;
                 p_ents := p_ents pe |} in
-  set_peer s (add_entities pe0 m (dm_ents m)).
+  let '(pe1, err) := add_entities true pe0 m (dm_ents m) in
+  let s1 := set_peer s pe1 in
+  if err then (s1, true) else
+  (fold_left (fun sa en => if listed m (re_addr en) || eqb_eaddr (re_addr en) [0%N] then sa
+                           else remove_remote_entity sa (p_ski pe) (re_addr en))
+             (p_ents pe1) s1, false).
 
 Definition discovery_notify (s : st) (p : N) (m : disc_msg) : st * bool :=
   match dm_ents m with
@@ -597,7 +609,7 @@ Definition nm_dispatch (s : st) (pe : peer) (lf : lfeat) (d : dgram) (c : cls) (
   | PDiscovery m =>
       match c with
       | CRead => (s, [send_reply p d local_dev FN_DISC 0], None)
-      | CReply => (discovery_reply s pe m, [], None)
+      | CReply => reg_result (discovery_reply s pe m)
       | CNotify => reg_result (discovery_notify s p m)
       | _ => err_general s
       end
